@@ -54,6 +54,7 @@ impl Group for C11Sim {
             c("world backup|vh 0 g 0|failw m sh 0"),
             // the real protocol handler (world h)
             c("world h|HVH 0 g 0|restart|HVH 0 g 1|restart|HRV 0|HVHO 0 g 2|restart|HVH -1 g 2"),
+            c("world h|HVH 0 g 0|HSCP 0 0|restart|HSCP 0 1|HCPR 0 g|restart|HSCP 0 2|HSH 0|restart|HVH 0 g 1"),
             // handler composites
             c("hvh 0 g 0|restart|rv 0|hvho 0 g 1|restart|hvh1o 0 g 2|ks 1000|restart|hvh1 0 g 0"),
             // a stub pruned by the heartbeat after more than six blocks, then created again under the same id
